@@ -405,8 +405,18 @@ def round_trip(ck, tier):
             for n in ir.walk(f["body"]):
                 if n.get("k") == "Decl":
                     for v in n["vars"]:
-                        if v.get("init") is not None and v["init"].get("k") == "Int" and v["t"].startswith("const"):
-                            consts[v["id"]] = int(v["init"]["v"])
+                        i_ = v.get("init")
+                        while i_ is not None and i_.get("k") in ("Paren", "Cast", "ImplicitCast") and i_.get("e") is not None:
+                            i_ = i_["e"]
+                        if i_ is not None and i_.get("k") == "Int" and v["t"].startswith("const"):
+                            consts[v["id"]] = int(i_["v"])
+                        elif i_ is not None and i_.get("k") == "Ref" and i_.get("global") and v["t"].startswith("const"):
+                            g_ = prog.globals.get(i_.get("qn")) or {}
+                            gi = g_.get("init")
+                            while gi is not None and gi.get("k") in ("Paren", "Cast", "ImplicitCast") and gi.get("e") is not None:
+                                gi = gi["e"]
+                            if gi is not None and gi.get("k") == "Int" and "const" in (g_.get("t") or ""):
+                                consts[v["id"]] = int(gi["v"])      # a local constant initialised from a named constant
             for n in ir.walk(f["body"]):
                 if n.get("k") == "Call" and n.get("callee") == "PolarGrid::writeToFile":
                     writes.append((f, n, consts))
@@ -425,7 +435,16 @@ def round_trip(ck, tier):
             if set(l) == set(w) and l != w:
                 probs.append("radii and angles file names are passed as %s here and as %s to the loading constructor at %s" % (w, l, ir.locstr(ln)))
         pa = n["args"][2]
+        while pa.get("k") in ("Paren", "Cast", "ImplicitCast") and pa.get("e") is not None:
+            pa = pa["e"]
         pv = int(pa["v"]) if pa.get("k") == "Int" else consts.get(pa.get("id"))
+        if pv is None and pa.get("k") == "Ref" and pa.get("global"):
+            g_ = prog.globals.get(pa.get("qn")) or {}
+            gi = g_.get("init")
+            while gi is not None and gi.get("k") in ("Paren", "Cast", "ImplicitCast") and gi.get("e") is not None:
+                gi = gi["e"]
+            if gi is not None and gi.get("k") == "Int" and "const" in (g_.get("t") or ""):
+                pv = int(gi["v"])
         if pv is None:
             ck.undecide("R-C18-6", key, "precision argument is not a compile-time constant")
             continue
